@@ -5,6 +5,7 @@ import (
 	"path/filepath"
 
 	"github.com/pdfcpu/pdfcpu/pkg/api"
+	"github.com/pdfcpu/pdfcpu/pkg/pdfcpu/model"
 	"verif/harness/lib/fsx"
 )
 
@@ -151,9 +152,13 @@ func (s *Scenario) OkPDF(rel string) bool {
 	if filepath.Ext(rel) != ".pdf" {
 		return true
 	}
-	c := conf()
-	if s.Op.Name == "api.EncryptFile" {
-		c.UserPW, c.OwnerPW = "u", "o"
+	for _, pw := range [][2]string{{"", ""}, {"u", "o"}, {"u2", "o"}, {"u", "o2"}} {
+		c := conf()
+		c.Cmd = model.VALIDATE
+		c.UserPW, c.OwnerPW = pw[0], pw[1]
+		if api.ValidateFile(s.SB.P(rel), c) == nil {
+			return true
+		}
 	}
-	return api.ValidateFile(s.SB.P(rel), c) == nil
+	return false
 }
